@@ -296,7 +296,6 @@ Lemma DV_finish res c : DV c -> DV (finish res c).
 Proof.
   unfold DV, finish. intro Hd.
   destruct (c_has_w c && negb (w_closed (c_w c))); cbn;
-    match goal with |- context[if ?b then _ else _] => destruct b end; cbn;
     try (unfold close_handle; cbn; destruct (w_fin (c_w c)); auto; discriminate); auto.
 Qed.
 Lemma DV_same c c' : c_w c' = c_w c -> c_verified c' = c_verified c -> DV c -> DV c'.
@@ -321,24 +320,10 @@ Qed.
 
 Lemma Safe_finish res c : Safe c -> DV c -> Safe (finish res c).
 Proof.
-  intros [Hc Hb] Hd. unfold finish.
-  set (c1 := if c_has_w c && negb (w_closed (c_w c)) then set_has_w false (set_w (close_handle (c_w c)) c) else c).
-  assert (Hc1 : Core c1 /\ c_buf c1 = c_buf c /\ DV c1).
-  { subst c1. destruct (c_has_w c && negb (w_closed (c_w c))).
-    - split; [eapply Core_close_handle; try reflexivity; exact Hc|]. split; [reflexivity|].
-      unfold DV in *. cbn. unfold close_handle. cbn. destruct (w_fin (c_w c)); auto; discriminate.
-    - auto. }
-  destruct Hc1 as (Hc1 & Hb1 & Hd1).
-  destruct (c_unk c1 && match c_verified c1 with None => true | Some _ => false end && w_closed (c_w c1)) eqn:E.
-  - (* the peer-learned length is forgotten: the writer is closed and holds no verified bytes *)
-    apply andb_true_iff in E. destruct E as [E Ecl]. apply andb_true_iff in E. destruct E as [_ Ev].
-    destruct (c_verified c1) eqn:Ever; [discriminate|].
-    destruct Hc1 as (S1 & S2 & S3 & S4).
-    split; [|cbn; rewrite Hb1; exact Hb].
-    unfold Core. cbn [set_phase set_len c_w c_hash c_len c_received c_verified].
-    split; [exact S1|]. split; [|split; [congruence|exact S4]].
-    intro Hf. exfalso. apply (Hd1 Hf). exact Ever.
-  - split; [eapply Core_ext; [|exact Hc1]; repeat split|cbn; rewrite Hb1; exact Hb].
+  intros [Hc Hb] _. unfold finish.
+  destruct (c_has_w c && negb (w_closed (c_w c))).
+  - split; [|exact Hb]. eapply Core_close_handle; try reflexivity. exact Hc.
+  - split; [eapply Core_ext; [|exact Hc]; repeat split|exact Hb].
 Qed.
 
 Lemma Safe_co_await_fin c : Safe c -> DV c -> Safe (co_await_fin c).
@@ -607,10 +592,7 @@ Lemma proj_finish res c :
   c_phase (finish res c) = PhDone res /\ c_open (finish res c) = c_open c /\ c_att (finish res c) = c_att c /\
   c_lost (finish res c) = c_lost c /\
   c_w (finish res c) = (if c_has_w c && negb (w_closed (c_w c)) then close_handle (c_w c) else c_w c).
-Proof.
-  unfold finish. destruct (c_has_w c && negb (w_closed (c_w c)));
-    match goal with |- context[if ?b then _ else _] => destruct b end; repeat split.
-Qed.
+Proof. unfold finish. destruct (c_has_w c && negb (w_closed (c_w c))); repeat split. Qed.
 
 (* ---- the client refuses *)
 Lemma acceptable_sound hash known r :
@@ -688,281 +670,98 @@ Proof.
   apply bytes_eqb_eq in E. congruence.
 Qed.
 
-(* ---- a length learned from a peer is forgotten when the download ends without a verified blob *)
-Definition Mw (c : client) : Prop := c_has_w c = true \/ w_closed (c_w c) = true.
-Definition failed (p : phase) : Prop :=
-  match p with PhDone (DlClosed _) | PhDone DlCancelled => True | _ => False end.
-Definition Forgot (c : client) : Prop :=
-  c_unk c = true -> failed (c_phase c) -> c_att c = false /\ (c_verified c = None -> c_len c = None).
-Definition G (c : client) : Prop := Mw c /\ Forgot c.
-
-Lemma Mw_close c : Mw c -> Mw (close c) /\ w_closed (c_w (close c)) = true.
+(* ---- KNOWN FINDING race-length-poison: a length once stored in the blob is never changed or forgotten *)
+Lemma len_cl_write c d L : c_len c = Some L -> c_len (fst (cl_write H c d)) = Some L.
 Proof.
-  unfold Mw, close. cbn. intros [Hh|Hc].
-  - rewrite Hh. cbn. destruct (w_closed (c_w c)) eqn:E; cbn; auto.
-  - rewrite Hc. rewrite andb_false_r. auto.
+  intro Hl. unfold cl_write. rewrite Hl.
+  destruct (writer_write _ _ _ _ _) as [w' []]; cbn; auto. destruct (c_att c && _); cbn; auto.
 Qed.
-
-Lemma finish_facts res c :
-  w_closed (c_w c) = true \/ c_has_w c = true ->
-  let c' := finish res c in
-  c_phase c' = PhDone res /\ c_att c' = c_att c /\ c_unk c' = c_unk c /\ c_verified c' = c_verified c /\
-  w_closed (c_w c') = true /\
-  (c_unk c = true -> c_verified c = None -> c_len c' = None) /\
-  (c_len c' = c_len c \/ c_len c' = None).
+Lemma len_write_if_open c d L : c_len c = Some L -> c_len (fst (write_if_open H c d)) = Some L.
 Proof.
-  intros Hw. unfold finish.
-  set (c1 := if c_has_w c && negb (w_closed (c_w c)) then set_has_w false (set_w (close_handle (c_w c)) c) else c).
-  assert (H1 : w_closed (c_w c1) = true /\ c_att c1 = c_att c /\ c_unk c1 = c_unk c /\ c_verified c1 = c_verified c /\
-               c_len c1 = c_len c).
-  { subst c1. destruct (c_has_w c) eqn:Eh; destruct (w_closed (c_w c)) eqn:Ec; cbn; repeat split; auto.
-    destruct Hw; congruence. }
-  destruct H1 as (A & B & C & D & E). rewrite A, C, D.
-  destruct (c_unk c) eqn:Eu; destruct (c_verified c) eqn:Ev; cbn; rewrite ?B, ?C, ?D, ?A, ?E; repeat split; auto; try congruence.
+  intro Hl. unfold write_if_open. destruct d; [exact Hl|]. destruct (c_has_w c && _); [apply len_cl_write|]; exact Hl.
 Qed.
-
-Lemma Mw_finish res c : Mw c -> Mw (finish res c).
+Lemma len_set_length l c L : c_len c = Some L -> fst (set_length l c) = c /\ snd (set_length l c) = false.
+Proof. intro Hl. unfold set_length. rewrite Hl. destruct l; auto. Qed.
+Lemma len_parse_path c d L : c_len c = Some L -> c_len (fst (parse_path H json_loads c d)) = Some L.
 Proof.
-  unfold Mw, finish. intros Hm.
-  destruct (c_has_w c) eqn:Eh; destruct (w_closed (c_w c)) eqn:Ec; cbn;
-    match goal with |- context[if ?b then _ else _] => destruct b end; cbn; rewrite ?Eh, ?Ec; auto;
-    destruct Hm; congruence.
-Qed.
-
-(* data_received never touches verified / the flag; with no download attached it changes nothing that matters *)
-Lemma unk_cl_write c d :
-  let c' := fst (cl_write H c d) in
-  c_unk c' = c_unk c /\ c_verified c' = c_verified c /\ c_att c' = c_att c /\ c_has_w c' = c_has_w c /\
-  (w_closed (c_w c) = true -> w_closed (c_w c') = true).
-Proof.
-  unfold cl_write. destruct (c_len c) as [L|]; [|repeat split; auto].
-  destruct (writer_write H (c_hash c) (Some L) (c_w c) _) as [w' out] eqn:Ew.
-  assert (Hcl : w_closed (c_w c) = true -> w_closed w' = true).
-  { intro Hc. unfold writer_write in Ew. destruct (L =? 0); [inversion Ew; subst; exact Hc|].
-    rewrite Hc in Ew. destruct (w_fin (c_w c)); inversion Ew; subst; auto. }
-  destruct out; cbn; try (repeat split; auto; fail).
-  destruct (c_att c && _); cbn; repeat split; auto.
-Qed.
-
-Lemma unk_write_if_open c d :
-  let c' := fst (write_if_open H c d) in
-  c_unk c' = c_unk c /\ c_verified c' = c_verified c /\ c_att c' = c_att c /\ c_has_w c' = c_has_w c /\
-  (w_closed (c_w c) = true -> w_closed (c_w c') = true).
-Proof.
-  unfold write_if_open. destruct d; [repeat split; auto|].
-  destruct (c_has_w c && _); [apply unk_cl_write|repeat split; auto].
-Qed.
-
-Lemma unk_set_length l c :
-  let c' := fst (set_length l c) in
-  c_unk c' = c_unk c /\ c_verified c' = c_verified c /\ c_att c' = c_att c /\ c_has_w c' = c_has_w c /\ c_w c' = c_w c.
-Proof. unfold set_length. destruct l, (c_len c); cbn; repeat split; auto; destruct (_ && _); repeat split. Qed.
-
-Definition keeps (c c' : client) : Prop :=
-  c_unk c' = c_unk c /\ c_verified c' = c_verified c /\ (Mw c -> Mw c') /\
-  (c_att c = false -> c_att c' = false /\ c_len c' = c_len c).
-Lemma keeps_refl c : keeps c c.
-Proof. unfold keeps. auto. Qed.
-
-Lemma keeps_data_received c d : keeps c (fst (data_received H json_loads c d)).
-Proof.
-  unfold data_received.
-  destruct (negb (c_open c)); cbn [fst].
-  { destruct (c_att c && _) eqn:E; [|apply keeps_refl]. unfold keeps, Mw. cbn. repeat split; auto. }
-  destruct (c_att c) eqn:Ea; cbn [negb fst].
-  2:{ unfold keeps. cbn. repeat split; auto. intro Hm. apply Mw_close. exact Hm. }
-  (* a download is attached: only unk / verified / Mw matter *)
-  assert (Hw : forall x dd, c_att x = true -> keeps x (fst (cl_write H x dd))).
-  { intros x dd Hax. destruct (unk_cl_write x dd) as (A & B & C & D & E). unfold keeps, Mw. rewrite A, B, D.
-    split; [reflexivity|]. split; [reflexivity|]. split; [intros [Hh|Hc]; auto|]. intro; congruence. }
-  assert (Hwo : forall x dd, c_att x = true -> keeps x (fst (write_if_open H x dd))).
-  { intros x dd Hax. unfold write_if_open. destruct dd; [apply keeps_refl|]. destruct (c_has_w x && _); [apply Hw; exact Hax|apply keeps_refl]. }
-  assert (Htr : forall x y z, keeps x y -> keeps y z -> c_att x = true -> c_att y = true -> keeps x z).
-  { intros x y z (A1 & A2 & A3 & A4) (B1 & B2 & B3 & B4) Hx Hy. unfold keeps. repeat split; try congruence; auto. }
-  assert (Hpp : keeps c (fst (parse_path H json_loads c d))).
-  { unfold parse_path.
-    assert (Hnil : keeps c (set_buf [] c)) by (unfold keeps, Mw; cbn; repeat split; auto; congruence).
-    destruct (parse_prefix json_loads (c_buf c ++ d)) as [| |r n]; cbn [fst]; [|apply keeps_refl|].
-    - destruct (negb (fut_done (c_fut c))).
-      + destruct (_ >? _); cbn [fst]; unfold keeps; cbn; repeat split; auto; try congruence.
-        intro Hm. apply (Mw_close (set_buf (c_buf c ++ d) c)). exact Hm.
-      + eapply Htr; [exact Hnil|apply Hwo; exact Ea|exact Ea|exact Ea].
-    - assert (Hdel : forall c1, keeps c c1 -> c_att c1 = true ->
-         keeps c (fst (match c_fut c1 with
+  intro Hl. unfold parse_path.
+  destruct (parse_prefix json_loads (c_buf c ++ d)) as [| |r n]; cbn [fst]; [|exact Hl|].
+  - destruct (negb (fut_done (c_fut c))); [destruct (_ >? _); exact Hl|apply len_write_if_open; exact Hl].
+  - assert (Hdel : forall c1, c_len c1 = Some L ->
+       c_len (fst (match c_fut c1 with
                   | FutPending => write_if_open H (set_delivered (S (c_delivered c1)) (set_fut (FutResult r) c1))
                                     (skipn n (c_buf c ++ d))
-                  | _ => (c1, true) end))).
-      { intros c1 Hk Ha1. destruct (c_fut c1); cbn [fst]; try exact Hk.
-        eapply Htr; [|apply Hwo; exact Ha1|exact Ea|exact Ha1].
-        eapply Htr; [exact Hk| |exact Ea|exact Ha1]. unfold keeps, Mw. cbn. repeat split; auto; congruence. }
-      destruct (if c_att (set_buf [] c) then r_blob r else BrAbsent) as [| |h l]; try (apply Hdel; [exact Hnil|exact Ea]).
-      destruct (match h with Some h' => bytes_eqb h' (c_hash (set_buf [] c)) | None => false end); [|exact Hnil].
-      destruct (set_length l (set_buf [] c)) as [c1 raised] eqn:Esl.
-      destruct (unk_set_length l (set_buf [] c)) as (A & B & C & D & E). rewrite Esl in A, B, C, D, E. cbn [fst] in A, B, C, D, E.
-      assert (Hk1 : keeps c c1).
-      { unfold keeps, Mw. rewrite A, B, D, E. cbn. repeat split; auto; congruence. }
-      assert (Ha1 : c_att c1 = true) by (rewrite C; exact Ea).
-      destruct raised; cbn [fst]; [exact Hk1|apply Hdel; assumption]. }
-  destruct (_ || _); [|exact Hpp].
-  destruct (negb (c_has_w c)); cbn [fst]; [apply keeps_refl|].
-  destruct (negb (w_closed (c_w c))); [apply Hw; exact Ea|exact Hpp].
+                  | _ => (c1, true) end)) = Some L).
+    { intros c1 H1. destruct (c_fut c1); cbn [fst]; auto. apply len_write_if_open. exact H1. }
+    destruct (if c_att (set_buf [] c) then r_blob r else BrAbsent) as [| |h l]; try (apply Hdel; exact Hl).
+    destruct (match h with Some h' => bytes_eqb h' (c_hash (set_buf [] c)) | None => false end); [|exact Hl].
+    destruct (len_set_length l (set_buf [] c) L Hl) as [E1 E2].
+    destruct (set_length l (set_buf [] c)) as [c1 raised]. cbn in E1, E2. subst. apply Hdel. exact Hl.
 Qed.
-
-Lemma unk_finish res c : c_unk (finish res c) = c_unk c.
-Proof. unfold finish. repeat match goal with |- context[if ?b then _ else _] => destruct b end; reflexivity. Qed.
-Lemma unk_run_callbacks c : c_unk (run_callbacks c) = c_unk c.
+Lemma len_data_received c d L : c_len c = Some L -> c_len (fst (data_received H json_loads c d)) = Some L.
+Proof.
+  intro Hl. unfold data_received.
+  destruct (negb (c_open c)); cbn [fst]; [destruct (_ && _); exact Hl|].
+  destruct (negb (c_att c)); cbn [fst]; [exact Hl|].
+  destruct (_ || _); [|apply len_parse_path; exact Hl].
+  destruct (negb (c_has_w c)); cbn [fst]; [exact Hl|].
+  destruct (negb (w_closed (c_w c))); [apply len_cl_write|apply len_parse_path]; exact Hl.
+Qed.
+Lemma len_finish res c : c_len (finish res c) = c_len c.
+Proof. unfold finish. destruct (_ && _); reflexivity. Qed.
+Lemma len_run_callbacks c : c_len (run_callbacks c) = c_len c.
 Proof. unfold run_callbacks. destruct (w_fin _), (c_verified c); reflexivity. Qed.
-Lemma unk_co_await_fin c : c_unk (co_await_fin c) = c_unk c.
+Lemma len_co_await_fin c : c_len (co_await_fin c) = c_len c.
 Proof.
-  unfold co_await_fin. destruct (w_fin (c_w c)); try reflexivity; rewrite unk_finish; try reflexivity.
-  apply unk_run_callbacks.
+  unfold co_await_fin. destruct (w_fin (c_w c)); try reflexivity; rewrite len_finish; try reflexivity.
+  apply len_run_callbacks.
 Qed.
-Lemma unk_co_step c : c_unk (co_step c) = c_unk c.
+Lemma len_co_step c : c_len (co_step c) = c_len c.
 Proof.
-  unfold co_step. destruct (c_phase c); try reflexivity; [|apply unk_co_await_fin].
-  destruct (c_fut c); try reflexivity; try (rewrite unk_finish; reflexivity).
-  destruct (c_closed_ev c); [rewrite unk_finish; reflexivity|].
+  unfold co_step. destruct (c_phase c); try reflexivity; [|apply len_co_await_fin].
+  destruct (c_fut c); try reflexivity; try (rewrite len_finish; reflexivity).
+  destruct (c_closed_ev c); [rewrite len_finish; reflexivity|].
   match goal with |- context[if ?b then _ else _] => destruct b end;
-    [rewrite unk_co_await_fin; reflexivity|rewrite unk_finish; reflexivity].
+    [rewrite len_co_await_fin; reflexivity|rewrite len_finish; reflexivity].
 Qed.
-Lemma unk_drain c : c_unk (drain c) = c_unk c.
+Lemma len_drain c : c_len (drain c) = c_len c.
 Proof.
   unfold drain. destruct (c_lost _).
-  - rewrite unk_co_step, unk_run_callbacks. cbn. rewrite unk_co_step, unk_run_callbacks. reflexivity.
-  - rewrite unk_co_step, unk_run_callbacks. reflexivity.
+  - rewrite len_co_step, len_run_callbacks. cbn. rewrite len_co_step, len_run_callbacks. reflexivity.
+  - rewrite len_co_step, len_run_callbacks. reflexivity.
 Qed.
-Lemma unk_fire c : c_unk (fire_timeouts c) = c_unk c.
+Lemma len_fire c : c_len (fire_timeouts c) = c_len c.
 Proof.
   unfold fire_timeouts. destruct (c_phase c); try reflexivity; destruct (_ <=? _); try reflexivity;
-    try (destruct (c_fut c); try reflexivity); rewrite unk_finish; reflexivity.
+    try (destruct (c_fut c); try reflexivity); rewrite len_finish; reflexivity.
+Qed.
+Lemma len_step c e L : c_len c = Some L -> c_len (step H json_loads c e) = Some L.
+Proof.
+  intro Hl. unfold step. destruct e; cbn [step_with].
+  - destruct (c_open c); [|exact Hl]. pose proof (len_data_received c d L Hl) as Hd.
+    destruct (data_received H json_loads c d) as [c1 []]; cbn in *; exact Hd.
+  - pose proof (len_data_received c d L Hl) as Hd.
+    destruct (data_received H json_loads c d) as [c1 []]; cbn in *; exact Hd.
+  - rewrite len_drain. exact Hl.
+  - rewrite len_drain, len_fire. cbn. rewrite len_drain. exact Hl.
+  - destruct (c_open c); exact Hl.
 Qed.
 
-Lemma G_finish_close res x : Mw x -> G (finish res (close x)).
+(* whatever happens to the download afterwards - failure, timeout, connection loss - the announced length stays *)
+Theorem announced_length_never_forgotten : forall evs c L,
+  c_len c = Some L -> c_len (run H json_loads c evs) = Some L.
 Proof.
-  intro Hm. destruct (Mw_close x Hm) as [Hm' Hcl].
-  destruct (finish_facts res (close x) (or_introl Hcl)) as (P & A & U & V & _ & F & _).
-  split; [apply Mw_finish; exact Hm'|].
-  intros Hu _. rewrite A. split; [reflexivity|]. intro Hv. apply F; congruence.
+  induction evs as [|e evs IH]; intros c L Hl; [exact Hl|].
+  unfold run in *. cbn [fold_left]. apply IH, len_step, Hl.
 Qed.
 
-Lemma G_notfailed c : Mw c -> ~ failed (c_phase c) -> G c.
-Proof. intros Hm Hn. split; [exact Hm|]. intros _ Hf. contradiction. Qed.
-
-Lemma G_run_callbacks c : G c -> G (run_callbacks c).
+(* ... and with a length L in the blob, a response announcing the true length n <> L is refused *)
+Theorem poisoned_length_refuses hash L n r :
+  r_blob r = BrIncoming (Some hash) (LInt n) -> n <> L -> acceptable hash (Some L) r = false.
 Proof.
-  intros [Hm Hf]. unfold run_callbacks.
-  destruct (w_fin (c_w c)); try (split; assumption).
-  destruct (c_verified c) eqn:Ev; [split; assumption|].
-  split; [exact Hm|]. intros Hu Hfl. destruct (Hf Hu Hfl) as [A B]. split; [exact A|]. cbn. discriminate.
-Qed.
-
-Lemma Mw_run_callbacks c : Mw c -> Mw (run_callbacks c).
-Proof. unfold Mw, run_callbacks. destruct (w_fin (c_w c)), (c_verified c); auto. Qed.
-
-Lemma G_close c : G c -> G (close c).
-Proof.
-  intros [Hm Hf]. split; [apply Mw_close; exact Hm|].
-  intros Hu Hfl. destruct (Hf Hu Hfl) as [A B]. split; [reflexivity|exact B].
-Qed.
-
-Lemma G_co_await_fin c : G c -> ~ failed (c_phase c) -> G (co_await_fin c).
-Proof.
-  intros [Hm Hf] Hn. unfold co_await_fin.
-  destruct (w_fin (c_w c)); try (split; assumption); try (apply G_finish_close; exact Hm).
-  apply G_notfailed; [apply Mw_finish, Mw_run_callbacks; exact Hm|].
-  destruct (proj_finish (DlOk (c_received c)) (run_callbacks c)) as (P & _). rewrite P. cbn. auto.
-Qed.
-
-Lemma G_co_step c : G c -> G (co_step c).
-Proof.
-  intros Hg. pose proof Hg as [Hm Hf]. unfold co_step.
-  destruct (c_phase c) eqn:Ep; try exact Hg.
-  - destruct (c_fut c); try exact Hg; try (apply G_finish_close; exact Hm).
-    + destruct (c_closed_ev c); [apply G_finish_close; exact Hm|].
-      match goal with |- context[if ?b then _ else _] => destruct b end; [|apply G_finish_close; exact Hm].
-      apply G_co_await_fin; [apply G_notfailed; [exact Hm|cbn; auto]|cbn; auto].
-    + apply G_notfailed; [apply Mw_finish; exact Hm|].
-      destruct (proj_finish DlOSError c) as (P & _). rewrite P. cbn. auto.
-  - apply G_co_await_fin; [exact Hg|rewrite Ep; cbn; auto].
-Qed.
-
-Lemma G_drain c : G c -> G (drain c).
-Proof.
-  intro Hg. unfold drain.
-  assert (H1 : G (co_step (run_callbacks c))) by (apply G_co_step, G_run_callbacks; exact Hg).
-  destruct (c_lost _); [|exact H1].
-  apply G_co_step, G_run_callbacks, G_close.
-  destruct H1 as [Hm Hf]. split; [exact Hm|exact Hf].
-Qed.
-
-Lemma G_fire_timeouts c : G c -> G (fire_timeouts c).
-Proof.
-  intros Hg. pose proof Hg as [Hm Hf]. unfold fire_timeouts.
-  destruct (c_phase c); try exact Hg; destruct (_ <=? _); try exact Hg.
-  - destruct (c_fut c); try exact Hg. apply G_finish_close. exact Hm.
-  - apply G_finish_close. unfold Mw in *. cbn. destruct Hm; auto.
-Qed.
-
-Lemma G_keeps c c' : keeps c c' -> c_phase c' = c_phase c -> G c -> G c'.
-Proof.
-  intros (A & B & C & D) Hp [Hm Hf]. split; [apply C; exact Hm|].
-  unfold Forgot. rewrite A, B, Hp. intros Hu Hfl. destruct (Hf Hu Hfl) as [Ha Hl].
-  destruct (D Ha) as [Ha' Hl']. rewrite Hl'. auto.
-Qed.
-
-Lemma G_step c e : G c -> G (step H json_loads c e).
-Proof.
-  intro Hg. unfold step. destruct e; cbn [step_with].
-  - destruct (c_open c); [|exact Hg].
-    pose proof (keeps_data_received c d) as Hk. pose proof (frame_data_received c d) as (Fp & _).
-    destruct (data_received H json_loads c d) as [c1 raised]. cbn [fst] in *.
-    assert (G c1) by (eapply G_keeps; eassumption).
-    destruct raised; [|assumption]. eapply G_keeps; [| |eassumption]; [unfold keeps, Mw; cbn; auto|reflexivity].
-  - pose proof (keeps_data_received c d) as Hk. pose proof (frame_data_received c d) as (Fp & _).
-    destruct (data_received H json_loads c d) as [c1 raised]. cbn [fst] in *.
-    assert (G c1) by (eapply G_keeps; eassumption).
-    destruct raised; [|assumption]. eapply G_keeps; [| |eassumption]; [unfold keeps, Mw; cbn; auto|reflexivity].
-  - apply G_drain. exact Hg.
-  - apply G_drain, G_fire_timeouts. eapply G_keeps; [| |apply G_drain; exact Hg]; [unfold keeps, Mw; cbn; auto|reflexivity].
-  - destruct (c_open c); [|exact Hg]. eapply G_keeps; [| |exact Hg]; [unfold keeps, Mw; cbn; auto|reflexivity].
-Qed.
-
-Lemma G_run : forall evs c, G c -> G (run H json_loads c evs).
-Proof. induction evs as [|e evs IH]; intros c Hg; [exact Hg|]. unfold run in *. cbn [fold_left]. apply IH, G_step, Hg. Qed.
-
-(* THE theorem for fix 1ef0969: a blob requested with an unknown length; whatever length a peer announces and whatever
-   happens afterwards - once that download has ended "closed" or "cancelled" without the blob being verified, the
-   blob's length is unknown again ... *)
-Theorem peer_learned_length_forgotten c0 hash evs :
-  let c := run H json_loads (request hash None c0) evs in
-  failed (c_phase c) -> c_verified c = None -> c_len c = None /\ c_att c = false.
-Proof.
-  intros c Hf Hv.
-  assert (Hg : G c).
-  { apply G_run. unfold request. destruct (c_open c0); apply G_notfailed; unfold Mw; cbn; auto. }
-  destruct Hg as [_ Hfg].
-  assert (Hu : c_unk c = true).
-  { assert (Hun : forall evs x, c_unk (run H json_loads x evs) = c_unk x).
-    { induction evs0 as [|e evs0 IH]; intro x; [reflexivity|]. unfold run in *. cbn [fold_left]. rewrite IH.
-      clear. unfold step. destruct e; cbn [step_with].
-      - destruct (c_open x); [|reflexivity]. pose proof (keeps_data_received x d) as (A & _).
-        destruct (data_received H json_loads x d) as [c1 []]; cbn in *; exact A.
-      - pose proof (keeps_data_received x d) as (A & _).
-        destruct (data_received H json_loads x d) as [c1 []]; cbn in *; exact A.
-      - apply unk_drain.
-      - rewrite unk_drain, unk_fire. cbn. apply unk_drain.
-      - destruct (c_open x); reflexivity. }
-    unfold c. rewrite Hun. unfold request. destruct (c_open c0); reflexivity. }
-  destruct (Hfg Hu Hf) as [A B]. split; [apply B; exact Hv|exact A].
-Qed.
-
-(* ... so that the next download of the same blob is not refused for its length: with no known length the client's
-   checks do not look at the announced length at all *)
-Theorem retry_not_refused_for_length hash n r :
-  acceptable hash (Some n) r = true -> acceptable hash None r = true.
-Proof.
-  intro Ha. apply acceptable_sound in Ha. destruct Ha as (Hav & Hp & l & Hb & _).
-  unfold acceptable. rewrite Hb, Hp. cbn. destruct Hav as [-> | ->]; cbn; rewrite ?bytes_eqb_refl; reflexivity.
+  intros Hb Hne. destruct (acceptable hash (Some L) r) eqn:E; [|reflexivity].
+  apply acceptable_sound in E. destruct E as (_ & _ & l & Hb' & [Hk|[k [Hk Hl]]]); [discriminate|].
+  rewrite Hb in Hb'. inversion Hb' as [Hll]. rewrite <- Hll in Hl. inversion Hl. inversion Hk. congruence.
 Qed.
 
 End Client.
